@@ -34,6 +34,11 @@ def _c(pid, engine, technique, level_text, level_note, design_ref):
 
 
 CHECKS = [
+    _c("C11", E1,
+       "symbolic execution (CrossHair+z3) of optimize.Optimize over bounded pytd units and option sets against a denotational admits() oracle",
+       "Bounded solver-certified exhaustive check: for every bounded type tree (as constant, parameter and return type) and every bounded overloaded function, under six option sets, the optimised unit admits a superset of values / calls (equal sets for plain class unions under lossless settings) and optimising twice equals optimising once.",
+       "Trusted: the admits() oracle over a 68-value universe, CrossHair, z3. Outside: use_abcs, type parameters, stubs of analysed programs, bundled stubs.",
+       "DESIGN.md 4 C11"),
     _c("C03", E1,
        "symbolic execution (CrossHair+z3) of _LineSet and of a real Director built from symbolic comment-parser output; with/without-directive differential over a symbolic raw error",
        "Bounded solver-based check at the Director level: line numbers are symbolic integers; for every bounded configuration of directives, statement/call/function ranges and a symbolic raw error, appending a trailing disable (or type: ignore) on the reported line silences that error and changes nothing else except through the documented start-line mechanism. One recorded finding (implicit-return line shift) is printed as KNOWN-FINDING and excluded.",
@@ -84,6 +89,5 @@ NOT_APPLICABLE = {
     "C04": "check under construction (DESIGN.md 4 C04); not claimed until committed",
     "C05": "check under construction (DESIGN.md 4 C05); not claimed until committed",
     "C09": "check under construction (DESIGN.md 4 C09); not claimed until committed",
-    "C11": "check under construction (DESIGN.md 4 C11); not claimed until committed",
     "C16": "check under construction (DESIGN.md 4 C16); not claimed until committed",
 }
